@@ -60,10 +60,16 @@ fn plan_c01(thorough: bool) -> Plan {
     // (a) all histories of D commits with ≤ B key actions over U1, from the empty store
     let mut a_full: Vec<(&str, Option<usize>)> = vec![("r", None), ("d", None), ("rd", None)];
     for s in SIZES_FULL.iter() {
+        // quick: the two mid-range sizes are left to the thorough tier
+        if !thorough && (*s == 5000 || *s == 61380) {
+            continue;
+        }
         a_full.push(("w", Some(*s)));
     }
     a_full.push(("rw", Some(1)));
-    a_full.push(("rw", Some(1333)));
+    if thorough {
+        a_full.push(("rw", Some(1333)));
+    }
     let a_full = acts(&a_full);
     let (d, b) = if thorough { (3, 3) } else { (2, 2) };
     cases.extend(enum_commit_histories(d, 6, b, &a_full, &mk_case("empty", vec!["U1"], &cfg, "values", false)));
@@ -111,22 +117,33 @@ fn plan_c01(thorough: bool) -> Plan {
         &mk_case("ovf", vec!["seed:0", "CL0:0-1"], &cfg, "values", false),
     ));
     // (c2) two large overflow values released in one commit, then re-allocation from the free list
-    let a_ovf2 = acts(&[("d", None), ("w", Some(70000)), ("w", Some(1)), ("w", Some(61381))]);
+    let a_ovf2 = if thorough { acts(&[("d", None), ("w", Some(70000)), ("w", Some(1)), ("w", Some(61381))]) } else { acts(&[("d", None), ("w", Some(70000))]) };
     cases.extend(enum_commit_histories(3, 3, if thorough { 4 } else { 3 }, &a_ovf2, &mk_case("ovf2", vec!["seed:0,1,2"], &cfg, "values", false)));
     // (c3) the boundary between prefix-compressed and uncompressed separators in a branch node
     let a_mixed = acts(&[("w", Some(1300)), ("d", None), ("w", Some(1))]);
     cases.extend(enum_commit_histories(2, 8, 2, &a_mixed, &mk_case("mixed2", vec!["seed:300,698,699,700,701,702,730,759"], &cfg, "values", false)));
+    // one commit with ≤3 actions around the boundary: rewrite the first scattered leaves in place
+    // while merging cluster leaves (three consecutive cluster keys share a leaf pairwise)
+    let a_mixed2 = acts(&[("d", None), ("w", Some(1300))]);
+    {
+        let mut cs = enum_commit_histories(1, 9, 3, &a_mixed2, &mk_case("mixed2", vec!["seed:300,301,302,700,701,702,703,704,705"], &cfg, "values", false));
+        for c in cs.iter_mut() {
+            c["audit_seed_keys"] = json!(true);
+        }
+        cases.extend(cs);
+    }
+    cases.extend(pfx_family("values"));
     // (d) the same with a reopen inserted at every position (control symbol), reduced alphabet
     let base = enum_commit_histories(2, 4, 2, &a_small, &mk_case("leaf", vec!["seed:0,1,4,5"], &cfg, "values", false));
     cases.extend(with_control_everywhere(&base, &json!({"reopen": {}})));
     // (e) several commit workers
     let mut cfg3 = cfg_small();
     cfg3.cc = 3;
-    cases.extend(enum_commit_histories(2, 6, if thorough { 3 } else { 2 }, &a_br, &mk_case("branch", vec!["seed:0,1,299,300,598,599"], &cfg3, "values", false)));
+    cases.extend(enum_commit_histories(2, 6, if thorough { 3 } else { 1 }, &a_br, &mk_case("branch", vec!["seed:0,1,299,300,598,599"], &cfg3, "values", false)));
     sort_by_bound(&mut cases);
     let mut p = Plan::new(
         cases,
-        "histx: every history of D commits whose batches deviate from the empty batch in at most B key actions (bound = number of deviations), over colliding key universes, from seed states {empty, leaf(6x1300B), branch(600 keys sharing 30 bytes), bulk(1500 keys), ovf(5MiB value), ovf2(two 70000-byte and one 61381-byte value), mixed2(700 clustered + 60 scattered keys: a branch node with compressed and uncompressed separators)}; action alphabet = read, delete, read-then-delete, write of sizes {0,1,1332,1333,5000,61380,61381,70000}, read-then-write; reopen inserted at every position for a sub-family; after every commit Nomt::read and Session::read of every universe key are compared with a BTreeMap model. Non-trivial = at least one write was committed; distinct = distinct (case, final-state digest).",
+        "histx: every history of D commits whose batches deviate from the empty batch in at most B key actions (bound = number of deviations), over colliding key universes, from seed states {empty, leaf(6x1300B), branch(600 keys sharing 30 bytes), bulk(1500 keys), ovf(5MiB value), ovf2(two 70000-byte and one 61381-byte value), mixed2(700 clustered + 60 scattered keys), pfx(450 keys sharing 247 bits + 3 far keys: a branch node built with stopped prefix compression; macro action 'delete a run of 100..400 cluster keys' + in-place rewrite of a far key, every seed key audited)}; action alphabet = read, delete, read-then-delete, write of sizes {0,1,1332,1333,5000,61380,61381,70000}, read-then-write; reopen inserted at every position for a sub-family; after every commit Nomt::read and Session::read of every universe key are compared with a BTreeMap model. Non-trivial = at least one write was committed; distinct = distinct (case, final-state digest).",
     );
     p.budget_s = if thorough { 1500 } else { 40 };
     p.assumptions = vec![
@@ -214,6 +231,7 @@ fn structural_family(thorough: bool, buckets: &[u32]) -> Vec<Value> {
             cases.extend(enum_commit_histories(2, 3, 3, &a_ovf2, &mk_case("ovf2", vec!["seed:0,1,2"], &cfg, "noproof", false)));
             let a_mixed = acts(&[("w", Some(1300)), ("d", None)]);
             cases.extend(enum_commit_histories(2, 8, 2, &a_mixed, &mk_case("mixed2", vec!["seed:300,698,699,700,701,702,730,759"], &cfg, "noproof", false)));
+            cases.extend(enum_commit_histories(1, 9, 3, &a_mixed, &mk_case("mixed2", vec!["seed:300,301,302,700,701,702,703,704,705"], &cfg, "noproof", false)));
             let a_br = acts(&[("w", Some(1300)), ("d", None), ("w", Some(1))]);
             cases.extend(enum_commit_histories(2, 6, 2, &a_br, &mk_case("branch", vec!["seed:0,1,299,300,598,599"], &cfg, "noproof", false)));
             cases.extend(enum_commit_histories(2, 4, 2, &a_br, &mk_case("bulk", vec!["seed:0,700,1499", "CL0:0-1"], &cfg, "noproof", false)));
@@ -226,6 +244,7 @@ fn structural_family(thorough: bool, buckets: &[u32]) -> Vec<Value> {
 
 fn plan_c16(thorough: bool) -> Plan {
     let mut cases = structural_family(thorough, if thorough { &[64, 256, 4096] } else { &[64, 4096] });
+    cases.extend(pfx_family("noproof"));
     cases.extend(crate::plans2::tombstone_family("noproof", thorough));
     set_all(&mut cases, "image", json!("c16"));
     sort_by_bound(&mut cases);
@@ -432,4 +451,32 @@ fn fault_plan(thorough: bool) -> Plan {
     p.timeout_is_violation = true;
     p.assumptions = vec!["failures are injected at the I/O seam (before the syscall / at I/O-pool submission or completion); read failures are not injected".into()];
     p
+}
+
+/// Bulk-shrink family: a branch node built with stopped prefix compression; one commit deletes a
+/// long run of the clustered keys (macro action = one deviation) and rewrites one far key in
+/// place. Every key of the seed is audited.
+pub fn pfx_family(audit: &str) -> Vec<Value> {
+    let cfg = cfg_small();
+    let mut cases = vec![];
+    for start in [0u64, 7, 50, 150] {
+        for n in [100u64, 200, 300, 400] {
+            if start + n > 450 {
+                continue;
+            }
+            let mut batches: Vec<Vec<Value>> = vec![vec![json!([start, "dn", n])]];
+            for far in [450u64, 451, 452] {
+                for size in [1000u64, 1] {
+                    batches.push(vec![json!([start, "dn", n]), json!([far, "w", size])]);
+                }
+            }
+            for b in batches {
+                let nb = b.len();
+                let mut c = json!({"bound": nb, "seed": "pfx", "universe": ["seed:all"], "cfg": cfg.to_json(), "audit": audit, "ops": [{"c": b}, {"c": [[451, "w", 7]]}], "final_reopen": true});
+                c["audit_seed_keys"] = json!(true);
+                cases.push(c);
+            }
+        }
+    }
+    cases
 }
